@@ -40,7 +40,7 @@ fn hostile_type(r: &mut Rng) -> DataType {
 
 fn hostile_catalog(r: &mut Rng) -> Catalog {
     let nt = 2 + r.usize(2);
-    let mut cat = Catalog { tables: vec![] };
+    let mut cat = Catalog { tables: vec![], rel_prefix: String::new() };
     for ti in 0..nt {
         let mut cols = vec![ColDef::new("id", DataType::integer_interval(1, 200)).unique()];
         if ti > 0 {
